@@ -952,7 +952,8 @@ namespace BitSerializer::Convert::Utf
 		}
 
 		[[nodiscard]] bool IsEnd() const noexcept {
-			return mStartDataPtr == mEndDataPtr && mInputStream.eof();
+			// No more data can be received from a failed stream as well (otherwise a reading loop would never end)
+			return mStartDataPtr == mEndDataPtr && (mInputStream.eof() || mInputStream.fail());
 		}
 
 		[[nodiscard]] UtfType GetSourceUtfType() const noexcept {
